@@ -57,7 +57,8 @@ def required(tier):
           'cond:airport', 'cond:dates', 'cond:every_nth', 'cond:every_nth+start',
           'cond:limit+offset', 'cond:sample', 'cond:ranges', 'cond:types', 'db:shipped',
           'db:generated', 'result:non-empty', 'result:empty', 'cond:zero-bound',
-          'history:interleaved-consumption']
+          'history:interleaved-consumption',
+          'history:modified-copy-run-before-the-original-is-read']
     return {'classes': cl, 'evaluations': 1500}
 
 
@@ -477,6 +478,37 @@ def run_shard(spec, rec):
                                        {'got_n': len(got_ids), 'expected_n': len(sl),
                                         'other_query': other, **desc})
                     rec.cls('history:interleaved-consumption')
+                # ---- a modified COPY of the query is built / run before this one is read ------
+                if qkind == 'Query' and sample is None and rng.random() < 0.4:
+                    import copy as _copy
+                    import datetime as _dt
+                    rec.ev()
+                    sql1, par1 = q.to_sql()
+                    snap = (str(sql1), list(par1))
+                    g1 = db(q)                              # not started yet
+                    q2 = _copy.copy(q)
+                    q2.start_date = _dt.date(2019, rng.randint(1, 12), rng.randint(1, 28))
+                    q2.end_date = q2.start_date + _dt.timedelta(days=rng.randint(0, 20))
+                    q2.to_sql()
+                    g2 = db(q2)
+                    if (str(sql1), list(par1)) != snap:
+                        raise Mismatch('the SQL / parameters a query returned change when a copy of '
+                                       'the query is modified and built',
+                                       {'before': snap[1][:8], 'after': list(par1)[:8], **desc})
+                    r1 = list(g1)
+                    list(g2)
+                    sl = expected
+                    if limit is not None:
+                        off = offset or 0
+                        sl = expected[off:off + limit]
+                    got_ids = [x.id for x in r1]
+                    got_deps = [T.by_id[i]['dep'] for i in got_ids if i in T.by_id]
+                    if len(got_ids) != len(sl) or got_deps != [r['dep'] for r in sl] or \
+                            any(i not in {r['id'] for r in expected} for i in got_ids):
+                        raise Mismatch('a query started before a modified copy of it was run '
+                                       'returns the copy\'s answer',
+                                       {'got_n': len(got_ids), 'expected_n': len(sl), **desc})
+                    rec.cls('history:modified-copy-run-before-the-original-is-read')
                 rec.cls(f'query:{qkind}', 'result:' + ('non-empty' if expected else 'empty'))
                 for c in conds:
                     rec.cls(f'cond:{c}')
